@@ -44,6 +44,10 @@ impl HeaderMap {
     #[verifier::external_body]
     pub fn insert<K: HeaderText>(&mut self, name: K, v: HeaderValue) -> (r: Option<HeaderValue>)
         ensures hm_view(*final(self)) == hm_without(hm_view(*old(self)), name.text()).push((name.text(), hv_view(v))) { unimplemented!() }
+    /// HeaderMap::append: adds a value and KEEPS whatever is already stored under `name`
+    #[verifier::external_body]
+    pub fn append<K: HeaderText>(&mut self, name: K, v: HeaderValue) -> (r: bool)
+        ensures hm_view(*final(self)) == hm_view(*old(self)).push((name.text(), hv_view(v))) { unimplemented!() }
 }
 /// things accepted as header names / values by Builder::header (TryFrom<K> for HeaderName / HeaderValue)
 pub trait HeaderText { spec fn text(&self) -> Seq<char>; }
